@@ -81,23 +81,31 @@ def twins():
 
 def invoke(case, c, operands):
     """Returns list of result labels (as returned by the generator)."""
+    guard = gencommon.OperandLists(operands, alias=case.get("alias", False))
+    try:
+        return _invoke(case, c, guard.lists)
+    finally:
+        guard.check()
+
+
+def _invoke(case, c, operands):
     be = case.get("big_endian", False)
     kind = case["kind"]
     if kind == "mul":
         fn = M._process_mul[M.MulMode(case["mode"])]
-        return fn(c, list(operands[0]), list(operands[1]), big_endian=be)
+        return fn(c, operands[0], operands[1], big_endian=be)
     if kind == "mul_public":
         fn = {"KARATSUBA_PLAIN": A.add_mul_karatsuba}[case["mode"]]
-        return fn(c, list(operands[0]), list(operands[1]), big_endian=be)
+        return fn(c, operands[0], operands[1], big_endian=be)
     if kind == "square":
         fn = SQ._process_square[SQ.SquareMode(case["mode"])]
-        return fn(c, list(operands[0]), big_endian=be)
+        return fn(c, operands[0], big_endian=be)
     mt, st, _ = twins()
     if kind == "twin_mul":
         fn = {"KARATSUBA": mt.add_mul_karatsuba_with_efficient_sum, "KARATSUBA_PLAIN": mt.add_mul_karatsuba}[case["mode"]]
-        return fn(c, list(operands[0]), list(operands[1]), big_endian=be)
+        return fn(c, operands[0], operands[1], big_endian=be)
     if kind == "twin_square":
-        return st.add_square(c, list(operands[0]), big_endian=be)
+        return st.add_square(c, operands[0], big_endian=be)
     raise ValueError(kind)
 
 
@@ -319,6 +327,9 @@ def make_cases(tier, rnd):
                     continue
                 for n, m in ((small, big), (big, small)):
                     cases.append(dict(kind="mul", mode=mode, widths=[n, m], big_endian=bool((n + len(mode)) % 2), host="fresh"))
+    for mode in MUL_MODES:
+        for n in (2, 4, 6):
+            cases.append(dict(kind="mul", mode=mode, widths=[n, n], big_endian=bool(n % 4), host="repeat2", alias=True))
     cases.append(dict(kind="mul_public", mode="KARATSUBA_PLAIN", widths=[5, 4], big_endian=True, host="host"))
     cases.append(dict(kind="mul_public", mode="KARATSUBA_PLAIN", widths=[6, 6], host="fresh"))
     if thorough:
